@@ -387,6 +387,7 @@ func main() {
 	ls := generate(f.Thorough())
 	var mu sync.Mutex
 	var wg sync.WaitGroup
+	var suspects []layout
 	jobs := make(chan layout, 8)
 	for w := 0; w < 6; w++ {
 		wg.Add(1)
@@ -394,15 +395,11 @@ func main() {
 			defer wg.Done()
 			for l := range jobs {
 				v, sig := runLayout(l)
-				if len(v) > 0 && sig != "C18|machinery" {
-					if v2, sig2 := runLayout(l); len(v2) == 0 {
-						mu.Lock()
-						res.Notes = append(res.Notes, "not reproduced on re-execution: "+l.Name+": "+v[0])
-						mu.Unlock()
-						v = nil
-					} else {
-						v, sig = v2, sig2
-					}
+				if len(v) > 0 {
+					mu.Lock()
+					suspects = append(suspects, l)
+					mu.Unlock()
+					v = nil
 				}
 				mu.Lock()
 				res.Evaluations++
@@ -422,6 +419,29 @@ func main() {
 	}
 	close(jobs)
 	wg.Wait()
+	// confirmation pass: alone, three failures in a row
+	for _, l := range suspects {
+		var v []string
+		var sig string
+		fails := 0
+		for try := 0; try < 3; try++ {
+			v, sig = runLayout(l)
+			if len(v) == 0 {
+				break
+			}
+			fails++
+			time.Sleep(300 * time.Millisecond)
+		}
+		if fails < 3 {
+			res.Notes = append(res.Notes, "not reproduced when re-executed alone: "+l.Name)
+			continue
+		}
+		if sig == "C18|machinery" {
+			res.Exhaustive = false
+			continue
+		}
+		res.Add(sig, strings.Join(v, "\n  ")+"\n  layout: "+l.Name+" "+fmt.Sprint(names(l.Entries)), l)
+	}
 	res.Distinct = res.Evaluations
 	res.Bounds["configurations"] = len(ls)
 	res.Sample(ls[3])
